@@ -150,8 +150,19 @@ func classTtlStates(c *Ctx, r *Report, rule string) {
 	// the state variable: the phi named st at the loop header
 	var st *ssa.Phi
 	allInstrs(fn, func(in ssa.Instruction) {
-		if p, ok := in.(*ssa.Phi); ok && p.Comment == "st" && st == nil && len(p.Edges) > 4 {
-			st = p
+		// the state variable: the phi with the most incoming edges all of whose values are constants or phis
+		if p, ok := in.(*ssa.Phi); ok && len(p.Edges) > 4 && (st == nil || len(p.Edges) > len(st.Edges)) {
+			allConst := true
+			for _, e := range p.Edges {
+				_, isK := e.(*ssa.Const)
+				_, isP := e.(*ssa.Phi)
+				if !isK && !isP {
+					allConst = false
+				}
+			}
+			if b, isB := p.Type().Underlying().(*types.Basic); allConst && isB && b.Info()&types.IsInteger != 0 {
+				st = p
+			}
 		}
 	})
 	if st == nil {
